@@ -193,6 +193,33 @@ def analyse(prog):
     return out
 
 
+def analyse_argbind(seed):
+    """oracle-only stream: argument binding (defaults, *args, keyword-only, **kwargs, keyword
+    arguments; functions, methods, lambdas). Returns a list of probe records."""
+    import random
+    import jedi
+    from gen import argbind as A
+    rng = random.Random(seed)
+    out = []
+    for _ in range(6):
+        src, probes = A.gen_program(rng)
+        seen, err = A.run(src, probes)
+        if seen is None:
+            out.append({'src': src, 'skipped': err})
+            continue
+        for name, line in probes:
+            if name not in seen:
+                continue
+            rec = {'src': src, 'line': line, 'runtime': list(seen[name]), 'jedi': None, 'raised': None}
+            try:
+                ds = jedi.Script(src).infer(line, 0)
+                rec['jedi'] = sorted([d.name, d.line] for d in ds)
+            except Exception as e:
+                rec['raised'] = '%s@%s' % common.exc_site(e)
+            out.append(rec)
+    return out
+
+
 def programs(ctx):
     rng = ctx.subrng('gen')
     n = ctx.size(300, 8000)
@@ -257,7 +284,28 @@ def run(ctx):
             elif m['exec'] is not None and out['err'] is None:
                 ctx.tie_broken('correspondence:exec', short({'source': src, 'line': rec['line'],
                                                              'cpython': 'probe not reached', 'model': m['exec']}, 1500))
+    # ---- beyond the fragment: argument binding, judged by the direct oracle only
+    seeds = ['%s-argbind-%d' % (ctx.seed, i) for i in range(ctx.size(40, 800))]
+    for recs in common.parallel_map('props.c02', 'analyse_argbind', seeds):
+        for rec in recs:
+            if 'skipped' in rec:
+                continue
+            if rec['raised']:
+                ctx.count('raised', (rec['src'], rec['line']), nontrivial=False, bucket=rec['raised'])
+                continue
+            rt = rec['runtime']
+            ctx.count('argbind', (rec['src'], rec['line']), nontrivial=True,
+                      sample={'source': rec['src'], 'line': rec['line'], 'runtime': rt, 'jedi': rec['jedi']})
+            case = {'source': rec['src'], 'line': rec['line'], 'column': 0, 'shape': 'argument-binding'}
+            if rt not in rec['jedi']:
+                ctx.fail('oracle', 'the class of the run-time value is not among the inferred definitions',
+                         case, expected=rt, observed=rec['jedi'], how=how)
+            elif rec['jedi'] != [rt]:
+                ctx.fail('oracle', 'only one value can reach the expression but infer reports more',
+                         case, expected=[rt], observed=rec['jedi'], how=how)
     ctx.obligations['assumptions'] = [
+        'stream argbind (argument binding with defaults, *args, keyword-only, **kwargs) has no Lean model: it is '
+        'the direct oracle on code the PyCore fragment does not cover',
         'PyCore programs are generated in SSA form (every module-level name bound once) with parameter, attribute '
         'and module name pools disjoint; the abstract program, its printed source and its encoding for the model '
         'come from harness/gen/pycore.py and harness/props/c02.py:encode (trusted)',
